@@ -40,13 +40,69 @@ def sites(prog, adt):
     return out
 
 
+def _touches_field(body, place, adt, idx):
+    """does the place path go through field `idx` of a value of type `adt`?"""
+    ty = body.locals[place["l"]]["ty"]
+    for e in place["pr"]:
+        k = e.get("k")
+        if k == "deref":
+            ty = ty.get("t") if ty and ty.get("k") in ("ref", "ptr") else None
+            if ty is None:
+                return False
+        elif k == "field":
+            if ty is not None and ty.get("k") == "adt" and ty.get("p") == adt and e.get("i") == idx:
+                return True
+            ty = e.get("ty")
+        elif k in ("index", "constindex", "subslice"):
+            ty = ty.get("t") if ty and ty.get("k") in ("array", "slice") else None
+        elif k == "downcast":
+            pass
+        else:
+            ty = e.get("ty", ty)
+        if ty is None:
+            return False
+    return False
+
+
+def field_stable(prog, adt, idx):
+    """no code anywhere writes field `idx` of an existing `adt` value in place (assignment through the field, a call
+    result stored into it, or a `&mut` borrow of it, e.g. `self.data.clear()`): the constructor-census invariant of
+    the field then holds for every value of the type, not only freshly constructed ones"""
+    key = ("stable", id(prog), adt, idx)
+    if key in _CACHE:
+        return _CACHE[key]
+    ok = True
+    for p, body in prog.bodies.items():
+        if "::tests::" in p:
+            continue
+        for bi, si, st in body.stmts():
+            if st["k"] != "assign":
+                continue
+            if st["p"]["pr"] and _touches_field(body, st["p"], adt, idx):
+                ok = False
+            rv = st["rv"]
+            if rv["k"] in ("ref", "rawptr") and rv.get("m", True) and _touches_field(body, rv["p"], adt, idx):
+                ok = False
+            if not ok:
+                break
+        if ok:
+            for bb, t in body.calls():
+                d = t.get("dest")
+                if d and d["pr"] and _touches_field(body, d, adt, idx):
+                    ok = False
+        if not ok:
+            break
+    _CACHE[key] = ok
+    return ok
+
+
 def field_box(prog, adt, idx):
     """(lo, hi) hull of the integer operand stored into field idx over all construction sites, or None"""
     key = ("box", id(prog), adt, idx)
     if key in _CACHE:
         return _CACHE[key]
     _CACHE[key] = None   # recursion guard
-    if not is_private_struct(prog, adt):
+    if not is_private_struct(prog, adt) or not field_stable(prog, adt, idx):
         return None
     from .oblig import Ctx
     lo_hi = None
@@ -133,7 +189,7 @@ def len_box(prog, adt, idx):
     if key in _CACHE:
         return _CACHE[key]
     _CACHE[key] = None
-    if not is_private_struct(prog, adt):
+    if not is_private_struct(prog, adt) or not field_stable(prog, adt, idx):
         return None
     emb = embedded_len_box(prog, adt, idx)
     if emb is not None:
@@ -162,7 +218,7 @@ def conv_ok(prog, adt, idx, conv_fn):
     key = ("conv", id(prog), adt, idx, conv_fn)
     if key in _CACHE:
         return _CACHE[key]
-    if not is_private_struct(prog, adt):
+    if not is_private_struct(prog, adt) or not field_stable(prog, adt, idx):
         return False
     from .oblig import Ctx
     ss = sites(prog, adt)
@@ -181,59 +237,111 @@ def conv_ok(prog, adt, idx, conv_fn):
 
 
 def constructor_facts(prog, adt, self_name="arg1"):
-    """For a private struct with exactly one construction site: the site's guard facts rewritten over the
-    fields.  Returns (facts: list[Poly >= 0], boxes: {symbol: (lo, hi)}) or None."""
+    """For a private struct with exactly one construction site: the guard facts of that site rewritten over the
+    fields, one alternative per feasible path to the site (a value of the type was built along one of them).
+    Returns [(facts: list[Poly >= 0], boxes: {symbol: (lo, hi)}), ...] or None."""
     key = ("cfacts", id(prog), adt, self_name)
     if key in _CACHE:
         return _CACHE[key]
     _CACHE[key] = None
     if not is_private_struct(prog, adt):
         return None
+    if not all(field_stable(prog, adt, i_) for i_ in range(len(prog.adts[adt]["variants"][0]["fields"]))):
+        return None
     ss = sites(prog, adt)
     if len(ss) != 1:
         return None
     from .oblig import Ctx, seq_len_poly
+    from .sym import forward_paths
     p, bi, s = ss[0]
     body = prog.bodies[p]
     ctx = Ctx(prog, body)
     a = prog.adts[adt]
-    subst = {}    # symbol name (in the constructor) -> Poly over field symbols
-    boxes = {}
-    for i, (f, opj) in enumerate(zip(a["variants"][0]["fields"], s["rv"]["ops"])):
-        op = ctx.an.terms.operand(opj)
-        fty = f["ty"]
-        if fty.get("k") in ("int", "bool"):
-            poly = ctx.sy.poly(op)
-            if poly is not None and len(poly.m) == 1 and list(poly.m.values())[0] == 1 and list(poly.m)[0] != () and len(list(poly.m)[0]) == 1:
-                sym = list(poly.m)[0][0]
-                subst[sym] = Poly.sym("%s.%d" % (self_name, i))
-                boxes["%s.%d" % (self_name, i)] = ctx.sy.sym_box.get(sym, (None, None))
-        elif fty.get("k") == "adt" and fty["p"].endswith("::Vec"):
-            lp = seq_len_poly(ctx, op)
-            ln = "len(%s.%d)" % (self_name, i)
-            boxes[ln] = (0, (1 << 63) - 1)
-            if lp is not None:
-                # lp == len(field): if lp = (L - a)/k then L = k*len + a ; if lp is a single symbol, rename it
-                if len(lp.m) == 1 and list(lp.m)[0] != () and list(lp.m.values())[0] == 1 and len(list(lp.m)[0]) == 1:
-                    subst[list(lp.m)[0][0]] = Poly.sym(ln)
-                elif set(lp.syms()) == {"L"} and lp.m.get(("L",), 0) != 0:
-                    cL = lp.m[("L",)]
-                    c0 = lp.m.get((), 0)
-                    # lp = cL*L + c0 = len  =>  L = (len - c0)/cL
-                    subst.setdefault("L", (Poly.sym(ln) - Poly.const(c0)).scale(1 / cL))
-    ge, ne, other = ctx.facts_at(bi)
-    ge = list(ge) + ctx.derived(bi, ge, ne, other, [])
-    out = []
-    for f in ge:
-        if all(sname in subst for sname in f.syms()):
-            g = Poly()
-            for m, c in f.m.items():
-                term = Poly.const(c)
-                for sname in m:
-                    term = term * subst[sname]
-                g = g + term
-            out.append(g)
-    _CACHE[key] = (out, boxes)
+    paths = forward_paths(ctx.an, bi, limit=64)
+    if not paths:
+        return None
+    alts = []
+    seen = set()
+    for path in paths:
+        ctx.enter_path(path)
+        try:
+            ctx.an.terms._pos = (bi, 1 << 29)
+            subst = {}    # symbol name (in the constructor) -> Poly over field symbols
+            boxes = {}
+            for i, (f, opj) in enumerate(zip(a["variants"][0]["fields"], s["rv"]["ops"])):
+                op = ctx.an.terms.operand(opj)
+                fty = f["ty"]
+                if fty.get("k") in ("int", "bool"):
+                    poly = ctx.sy.poly(op)
+                    if poly is not None and len(poly.m) == 1 and list(poly.m.values())[0] == 1 and list(poly.m)[0] != () and len(list(poly.m)[0]) == 1:
+                        sym = list(poly.m)[0][0]
+                        subst[sym] = Poly.sym("%s.%d" % (self_name, i))
+                        boxes["%s.%d" % (self_name, i)] = ctx.sy.sym_box.get(sym, (None, None))
+                elif fty.get("k") == "adt" and fty["p"].endswith("::Vec"):
+                    lp = seq_len_poly(ctx, op)
+                    ln = "len(%s.%d)" % (self_name, i)
+                    boxes[ln] = (0, (1 << 63) - 1)
+                    if lp is not None:
+                        # lp == len(field): if lp = (L - a)/k then L = k*len + a ; if lp is a single symbol, rename it
+                        if len(lp.m) == 1 and list(lp.m)[0] != () and list(lp.m.values())[0] == 1 and len(list(lp.m)[0]) == 1:
+                            subst[list(lp.m)[0][0]] = Poly.sym(ln)
+                        elif set(lp.syms()) == {"L"} and lp.m.get(("L",), 0) != 0:
+                            cL = lp.m[("L",)]
+                            c0 = lp.m.get((), 0)
+                            # lp = cL*L + c0 = len  =>  L = (len - c0)/cL
+                            subst.setdefault("L", (Poly.sym(ln) - Poly.const(c0)).scale(1 / cL))
+            ge, ne, other = ctx.facts_at(bi)
+            pr0 = ctx.prover_at(bi, [])[0]
+            dead, _ = pr0.prove_ge0(Poly.const(-1))
+            if dead or any(a_[0] == "false" for a_ in other):
+                continue
+            ge = list(ge) + ctx.derived(bi, ge, ne, other, [])
+            # `x != a` over a two-value range {a, b} is `x == b`
+            for n_ in ne:
+                sy_ = n_.syms()
+                if len(sy_) == 1 and n_.degree() == 1:
+                    nm_ = sy_[0]
+                    c1 = n_.m.get((nm_,), 0)
+                    c0 = n_.m.get((), 0)
+                    bx_ = ctx.sy.sym_box.get(nm_, (None, None))
+                    if c1 in (1, -1) and bx_[0] is not None and bx_[1] is not None and bx_[1] - bx_[0] == 1:
+                        excluded = -c0 / c1
+                        other_v = bx_[1] if excluded == bx_[0] else (bx_[0] if excluded == bx_[1] else None)
+                        if other_v is not None:
+                            ge.append(Poly.sym(nm_) - Poly.const(other_v))
+                            ge.append(Poly.const(other_v) - Poly.sym(nm_))
+
+            def rewrite(f):
+                g = Poly()
+                for m, c in f.m.items():
+                    term = Poly.const(c)
+                    for sname in m:
+                        if sname not in subst:
+                            dr = ctx.sy.divrem.get(sname)
+                            if dr is None:
+                                return None
+                            kind, P, k = dr
+                            P2 = rewrite(P)
+                            if P2 is None:
+                                return None
+                            nm2 = "%s(%s,%d)" % (kind, P2, k)
+                            subst[sname] = Poly.sym(nm2)
+                            boxes[nm2] = ctx.sy.sym_box.get(sname, (0, k - 1) if kind == "rem" else (None, None))
+                        term = term * subst[sname]
+                    g = g + term
+                return g
+            out = []
+            for f in ge:
+                g = rewrite(f)
+                if g is not None and not g.is_const():
+                    out.append(g)
+            k_ = tuple(sorted(str(g) for g in out))
+            if k_ not in seen:
+                seen.add(k_)
+                alts.append((out, boxes))
+        finally:
+            ctx.leave_path()
+    _CACHE[key] = alts or None
     return _CACHE[key]
 
 
